@@ -21,7 +21,8 @@ RULE = (
     "BaseModel.load of a JSON file (1/4) from a random "
     "admissible parameter vector (g in [1e-3,1e3] log-uniform incl. the end points, v0 in [1e-4,1], betas in [-2,2]), 1-4 individuals "
     "(xi in [-3,3], tau in [30,110], sources in [-3,3]^k; the first one unshifted: sources = 0, its own tau among its ages) and one "
-    "age request per individual (the second individual's style cycles deterministically, the others are drawn) from {sorted grid, unsorted, repeated, tight float32-neighbour grid, single-element, scalar float, "
+    "age request per individual (the second individual's style cycles deterministically, the others are drawn) from {sorted grid, "
+    "unsorted, repeated, tight float32-neighbour grid, single-element, scalar float, "
     "scalar int, integer ages, empty, far extrapolation tau+-200y} x {list, tuple, ndarray}; the request is submitted as dict "
     "(to_dataframe None / True), as MultiIndex (grouped / interleaved rows, extra levels, swapped level order, with or without a repeated "
     "(ID, age) pair; to_dataframe None / False) and per individual to compute_individual_trajectory.  evaluations = cases; "
